@@ -478,7 +478,7 @@ pub fn run(cfg: RunCfg) {
         "scratchpad ties on the highest counter may resolve to any of the tied valid versions".into(),
     ];
     vh_core::section!(
-        rep, "quorum", (12_000, 1_000_000), 16,
+        rep, "quorum", (40_000, 1_000_000), 16,
         "non-trivial: >=2 versions seen, or a duplicate peer, or the terminator arrives before quorum; distinct by whole case",
         case_strategy, check
     );
